@@ -2,7 +2,7 @@
 C06 group kind, C11 escape flags, C08 self-check)."""
 import re
 from vx.assemble import Builder, Clause
-from vx import extract as X, dialect as D
+from vx import extract as X, rustlex as L, dialect as D
 from units import render as R
 
 def build(repo, spec_dir, canary=False):
@@ -90,11 +90,38 @@ impl Grapheme {
     f, _, _ = X.fn(rx, 'regex_matches_all_test_cases')
     ce, _, _ = X.closure_expr(f, '.all(|test_case| ')
     b.emit('''pub struct Regex { pub x: u8 }
-pub uninterp spec fn match_count(r: Regex, s: Seq<char>) -> nat;
-#[verifier::external_body] pub fn vx_match_count(r: &Regex, s: &String) -> (n: usize) ensures n == match_count(*r, s@) { unimplemented!() }''')
-    b.slice_fn('selfcheck_one', 'pub fn selfcheck_one(regex: &Regex, test_case: &String) -> (r: bool)', '    ' + ce, 'regexp.rs::regex_matches_all_test_cases closure |test_case|', props=['C07'],
-               extra_rules=[('R19', r'regex\.find_iter\(test_case\)\.count\(\)', 'vx_match_count(regex, test_case)', 'Regex::find_iter(..).count() (uninterpreted number of matches)')],
-               clauses=[Clause('selfcheck.exactly_one_match', 'r == (match_count(*regex, test_case@) == 1)', ['C08', 'C01'])])
+pub struct VxMatch { pub start: usize, pub end: usize }
+impl VxMatch { pub fn start(&self) -> (r: usize) ensures r == self.start { self.start }  pub fn end(&self) -> (r: usize) ensures r == self.end { self.end } }
+pub uninterp spec fn match_count(r: Regex, s: Seq<char>) -> nat;                  // number of non-overlapping matches (find_iter)
+pub uninterp spec fn first_match(r: Regex, s: Seq<char>) -> Option<VxMatch>;      // the leftmost-first match (find), byte offsets
+pub uninterp spec fn byte_len(s: Seq<char>) -> nat;                               // String::len: UTF-8 length
+#[verifier::external_body] pub fn vx_match_count(r: &Regex, s: &String) -> (n: usize) ensures n == match_count(*r, s@) { unimplemented!() }
+#[verifier::external_body] pub fn vx_find(r: &Regex, s: &String) -> (m: Option<VxMatch>) ensures m == first_match(*r, s@) { unimplemented!() }
+#[verifier::external_body] pub fn vx_string_len(s: &String) -> (n: usize) ensures n == byte_len(s@) { unimplemented!() }
+// what C08 needs of a test case that passes the self-check: a search finds it as a whole
+pub open spec fn found_whole(r: Regex, s: Seq<char>) -> bool { first_match(r, s) is Some && first_match(r, s)->Some_0.start == 0 && first_match(r, s)->Some_0.end == byte_len(s) }''')
+    def some_and(t, log, w):
+        k = t.find('.is_some_and(|'); skip = 0; dflt = 'false'
+        if k < 0:
+            mo = re.search(r'\.map_or\((true|false), \|', t)
+            if mo: k = mo.start(); dflt = mo.group(1); skip = len(dflt) + 2
+        if k < 0: return t
+        po = t.index('(', k); pc = L.match_close(t, po)
+        mm = re.match(r'\|(\w+)\| ', t[po + 1 + skip:])
+        if not mm: return t
+        recv_start = t.rfind('\n', 0, k)
+        # the receiver is the expression chain in front of `.is_some_and(`: from the start of the statement/expression
+        recv = t[:k].strip()
+        log.add('R33', w, 'X.is_some_and(|v| B)  /  X.map_or(D, |v| B)', 'match X { Some(v) => B, None => false / D }')
+        return 'match %s { Some(%s) => %s, None => %s }' % (recv, mm.group(1), t[po + 1 + skip + mm.end():pc].strip(), dflt) + t[pc + 1:]
+    body = ce.strip()
+    if body.startswith('{') and body.endswith('}'): body = body[1:-1].strip()
+    b.slice_fn('selfcheck_one', 'pub fn selfcheck_one(regex: &Regex, test_case: &String) -> (r: bool)', '    ' + body, 'regexp.rs::regex_matches_all_test_cases closure |test_case|', props=['C07'],
+               pre=lambda t, log, w: some_and(re.sub(r'\s+', ' ', t), log, w),
+               extra_rules=[('R19', r'regex\s*\.find_iter\(test_case\)\s*\.count\(\)', 'vx_match_count(regex, test_case)', 'Regex::find_iter(..).count() (uninterpreted number of matches)'),
+                            ('R19', r'regex\s*\.find\(test_case\)', 'vx_find(regex, test_case)', 'Regex::find (uninterpreted leftmost-first match)'),
+                            ('R19', r'\btest_case\.len\(\)', 'vx_string_len(test_case)', 'String::len (UTF-8 length, uninterpreted)')],
+               clauses=[Clause('selfcheck.accepts_only_a_test_case_found_as_a_whole', 'r ==> found_whole(*regex, test_case@)', ['C08', 'C01'])])
     b.emit('} // verus!\nimpl Clone for Quantifier { fn clone(&self) -> Self { unimplemented!() } }\nfn main() {}')
     b.trusted += ['formatting model (R16); closure plumbing dropped: iter().map(closure).join / collect_vec / for_each / all apply the closure per element, in order',
                   'Grapheme::escape_regexp_symbols is opaque here (`escaped` uninterpreted): only the argument order is checked']
